@@ -9,6 +9,7 @@ import (
 	"errors"
 	"fmt"
 	"io"
+	"io/fs"
 	"log"
 	"os"
 	"path/filepath"
@@ -128,8 +129,24 @@ func (s *JSONDB) newWriter(dagFile string, t time.Time, requestID string) (*writ
 	return w, f, nil
 }
 
+// maxListings bounds how often a query lists the history files again after
+// it found a listed file gone.
+const maxListings = 3
+
 func (s *JSONDB) ReadStatusRecent(dagFile string, n int) []*model.StatusFile {
-	var ret []*model.StatusFile
+	// A file that was listed may be gone when it is read: at the end of a
+	// run the recorder replaces the run's file by its compacted copy. The
+	// copy exists before the original is removed, so a new listing holds it;
+	// skipping the file instead would leave the run out of the answer.
+	for listing := 1; ; listing++ {
+		ret, vanished := s.readStatusRecent(dagFile, n)
+		if !vanished || listing == maxListings {
+			return ret
+		}
+	}
+}
+
+func (s *JSONDB) readStatusRecent(dagFile string, n int) (ret []*model.StatusFile, vanished bool) {
 	// Walk all files newest first: a file without a complete status (run
 	// just opened, or recorder killed) and the second copy of a run whose
 	// compaction was interrupted must not use up one of the n places.
@@ -145,6 +162,9 @@ func (s *JSONDB) ReadStatusRecent(dagFile string, n int) []*model.StatusFile {
 		status, err := s.cache.LoadLatest(file, func() (*model.Status, error) {
 			return ParseFile(file)
 		})
+		if errors.Is(err, fs.ErrNotExist) {
+			return nil, true
+		}
 		if err != nil || seen[status.RequestID] {
 			continue
 		}
@@ -154,10 +174,21 @@ func (s *JSONDB) ReadStatusRecent(dagFile string, n int) []*model.StatusFile {
 			Status: status,
 		})
 	}
-	return ret
+	return ret, false
 }
 
 func (s *JSONDB) ReadStatusToday(dagFile string) (*model.Status, error) {
+	// As in ReadStatusRecent: when a listed file is gone, list again rather
+	// than answer with the status of an older run.
+	for listing := 1; ; listing++ {
+		status, err := s.readStatusToday(dagFile)
+		if !errors.Is(err, fs.ErrNotExist) || listing == maxListings {
+			return status, err
+		}
+	}
+}
+
+func (s *JSONDB) readStatusToday(dagFile string) (*model.Status, error) {
 	files, err := s.latestToday(dagFile, time.Now(), s.latestStatusToday)
 	if err != nil {
 		return nil, err
@@ -175,6 +206,9 @@ func (s *JSONDB) ReadStatusToday(dagFile string) (*model.Status, error) {
 		})
 		if err == nil {
 			return status, nil
+		}
+		if errors.Is(err, fs.ErrNotExist) {
+			return nil, err
 		}
 		lastErr = err
 	}
